@@ -362,4 +362,52 @@ def completeness_lr(ctx, case, log, tree):
 
 
 def replay(case, ctx):
-    ctx.count("replay_not_supported_for_filters")
+    """Re-executes the stored (grammar, filter, parser, expression) case."""
+    text, x = case["grammar"], case["expr"]
+    kind = case["filter"]
+    if kind == "accept_all":
+        f = Filter(lambda *a: True)
+        if case["parser"] == "GLR":
+            pf = pgx.glr(pgx.grammar(text), dynamic_filter=f)
+            p0 = pgx.glr(pgx.grammar(text))
+            a = glrobs.parse_glr(pf, x)
+            b = glrobs.parse_glr(p0, x)
+            if discipline(ctx, case, f.log, pf.grammar):
+                if a.kind != b.kind or (a.kind == "forest" and sorted(t.to_str() for t in a.forest) != sorted(t.to_str() for t in b.forest)):
+                    ctx.violation("accept-all-differs-from-no-filter", case, "GLR accept-all %s/%s vs no filter %s/%s" % (a.kind, a.len, b.kind, b.len))
+                elif a.kind == "forest":
+                    completeness_glr(ctx, case, f.log, a.forest)
+        else:
+            lf = pgx.lr(pgx.grammar(text), dynamic_filter=f, prefer_shifts=False, prefer_shifts_over_empty=False, build_tree=True)
+            l0 = pgx.lr(pgx.grammar(text), prefer_shifts=False, prefer_shifts_over_empty=False, build_tree=True)
+            ka, va = pgx.outcome(lf.parse, x)
+            kb, vb = pgx.outcome(l0.parse, x)
+            if discipline(ctx, case, f.log, lf.grammar):
+                if ka != kb or (ka == "ret" and va.to_str() != vb.to_str()):
+                    ctx.violation("accept-all-differs-from-no-filter", case, "LR accept-all %s vs %s" % (ka, kb))
+                elif ka == "ret":
+                    completeness_lr(ctx, case, f.log, va)
+    elif kind.startswith("reject:"):
+        victim = kind.split(":", 1)[1]
+        f2 = Filter(lambda context, fs, ts, action, production, sub: not (action is REDUCE and len(production.rhs) == 3 and production.rhs[1].name == victim))
+        pr = pgx.glr(pgx.grammar(text), dynamic_filter=f2)
+        p0 = pgx.glr(pgx.grammar(text))
+        a = glrobs.parse_glr(pr, x)
+        b = glrobs.parse_glr(p0, x)
+        if discipline(ctx, case, f2.log, pr.grammar) and b.kind == "forest":
+
+            def uses(t):
+                if t.is_term():
+                    return False
+                if len(t.production.rhs) == 3 and t.production.rhs[1].name == victim:
+                    return True
+                return any(uses(c) for c in t.children)
+
+            want = set(t.to_str() for t in b.forest if not uses(t))
+            got = set(t.to_str() for t in a.forest) if a.kind == "forest" else set()
+            if got != want:
+                ctx.violation("rejected-action-taken-or-accepted-action-dropped", case, "%d trees, expected %d" % (len(got), len(want)))
+            elif a.kind == "forest":
+                completeness_glr(ctx, case, f2.log, a.forest)
+    else:
+        ctx.count("replay_precedence_filter_case_is_self_describing")
